@@ -876,6 +876,14 @@ Next:
         return make_error(Error::kInvalidExtraReg);
       }
 
+      // The physical id of {k} must be a mask register that exists - only 3 bits encode it, `k8` would be emitted as `k0`
+      // (no masking at all).
+      if (extra_reg.id() < Operand::kVirtIdMin) {
+        if (ASMJIT_UNLIKELY(extra_reg.id() >= 32 || !Support::bit_test(vd->allowed_reg_mask[size_t(RegType::kMask)], extra_reg.id()))) {
+          return make_error(Error::kInvalidPhysId);
+        }
+      }
+
       if (ASMJIT_UNLIKELY(extra_reg.id() == 0 || !common_info.has_avx512_k())) {
         return make_error(Error::kInvalidKMaskUse);
       }
